@@ -750,7 +750,7 @@ class _ClientGen:
                     if r.random() < 0.3:
                         self.step()
                 if u2 < 0.75:
-                    self._add({"op": "fs_write", "path": path, "text": r.choice(self.rewrites[path])})
+                    self._add({"op": "fs_write", "path": path, "text": r.choice(self.rewrites[path]), "replace": r.random() < 0.25})
                 return self._add({"op": "read_file", "path": path}, "graph")
             return self._add({"op": "read_file", "path": r.choice(self.files)}, "graph")
         # results of inputs that are expected to be rejected rarely become arguments
